@@ -263,25 +263,29 @@ def replay(name, kind):
         x = d.sample(k, (), *cb)
         bc = cb if d.bijection.cond_shape is not None else ()
         dc = cb if d.base_dist.cond_shape is not None else ()
-        if kind in ("log_prob", "joint", "merge"):
+        if kind in ("log_prob", "joint", "merge", "all"):
             z, ld = d.bijection.inverse_and_log_det(x, *bc)
             want = d.base_dist.log_prob(z, *dc) + ld
             got = d.log_prob(x, *cb)
             if not np.allclose(got, want, rtol=1e-8, atol=1e-8):
                 bad.append(f"log_prob({np.asarray(x).tolist()})={float(got)} but base log-density + inverse log-det = {float(want)}")
-        if kind in ("sample", "joint", "merge"):
+        if kind in ("sample", "joint", "merge", "all"):
             want = d.bijection.transform(d.base_dist.sample(k, (), *dc), *bc)
             if not np.allclose(x, want, rtol=1e-8, atol=1e-8):
                 bad.append(f"sample={np.asarray(x).tolist()} but transform(base sample)={np.asarray(want).tolist()}")
-        if kind == "joint":
-            s2, lp2 = d.sample_and_log_prob(k, (), *cb)
+        if kind in ("joint", "all"):
+            try:
+                s2, lp2 = d.sample_and_log_prob(k, (), *cb)
+            except Exception as e:  # noqa - a well-formed call (same arguments as the sample / log_prob calls above) must not raise
+                bad.append(f"sample_and_log_prob(key, (), condition) raised {type(e).__name__}: {e} although sample and log_prob accept the same arguments")
+                continue
             if not np.allclose(s2, x, rtol=1e-8, atol=1e-8) or not np.allclose(lp2, d.log_prob(s2, *cb), rtol=1e-6, atol=1e-6):
                 bad.append(f"sample_and_log_prob -> ({np.asarray(s2).tolist()}, {float(lp2)}) but log_prob(sample)={float(d.log_prob(s2, *cb))}")
         if kind == "merge" and isinstance(d.base_dist, fd.AbstractTransformed):
             mg = d.merge_transforms()
             if not np.allclose(mg.log_prob(x, *cb), d.log_prob(x, *cb), rtol=1e-8, atol=1e-8) or not np.allclose(mg.sample(k, (), *cb), x, rtol=1e-8, atol=1e-8):
                 bad.append(f"merge_transforms changed the distribution: log_prob {float(mg.log_prob(x, *cb))} vs {float(d.log_prob(x, *cb))}; sample {np.asarray(mg.sample(k, (), *cb)).tolist()} vs {np.asarray(x).tolist()}")
-    if kind in ("log_prob", "merge"):
+    if kind in ("log_prob", "merge", "all"):
         # fixed probe points, including points whose inverse image lies outside the base support (the density there is exactly -inf)
         bc = cb if d.bijection.cond_shape is not None else ()
         dc = cb if d.base_dist.cond_shape is not None else ()
@@ -306,4 +310,4 @@ def replay(name, kind):
 
 def obligations(tier, seed):
     names = QUICK if tier == "quick" else THOROUGH
-    return [dict(name=n, func="c03:ob_dist", kwargs=dict(name=n), cost=10 if "flow" in n or "maf" in n else 2, replay=dict(func="c03:replay", kwargs=dict(name=n, kind="log_prob"))) for n in names]
+    return [dict(name=n, func="c03:ob_dist", kwargs=dict(name=n), cost=10 if "flow" in n or "maf" in n else 2, replay=dict(func="c03:replay", kwargs=dict(name=n, kind="all"))) for n in names]
